@@ -203,9 +203,12 @@ Definition parseTimeZoneToNas (timezone : bytes) : outcome Z :=
               else if eqb_bytes mm [51; 48] then (time + 2)%Z
               else if eqb_bytes mm [52; 53] then (time + 3)%Z
               else (time + 0)%Z in
-  let time := toBinaryCodedDecimal time in
+  (* negative := timezone[0] == '-'; if time < 0 { time = -time; negative = false } *)
   c0 <- idx timezone 0 ;;
-  let time := if c0 =? 45 then Z.lor time 128 else time in
+  let negative := c0 =? 45 in
+  let '(time, negative) := if (time <? 0)%Z then ((- time)%Z, false) else (time, negative) in
+  let time := toBinaryCodedDecimal time in
+  let time := if negative then Z.lor time 128 else time in
   Ok (toSemiOctet time).
 
 (* time.Time as the code observes it *)
@@ -293,29 +296,38 @@ Definition DecodeDaylightSavingTime (octet : N) : bytes :=
   if v =? 0 then [] else if v =? 1 then s_plus1 else if v =? 2 then s_plus2 else [].
 
 (* ------------------------------------------------------------------ *)
-(* NetWorkName.go: the packing loop (identical in Full... and Short...) *)
+(* NetWorkName.go: the packing loop (identical in Full... and Short...), as of
+   commit 12a658d *)
 
-Fixpoint name_loop (chars : bytes) (i : nat) (buf : bytes) (ix : N) : outcome bytes :=
+(* one iteration of "for i, char := range asciiArray":
+     pos := 7 * i
+     buf[pos/8] |= (char & 0x7f) << uint(pos%8)              (in uint8)
+     if pos%8 > 1 { buf[pos/8+1] |= (char & 0x7f) >> uint(8-pos%8) }
+   an index outside buf is a Panic *)
+Definition name_step (char : N) (i : nat) (buf : bytes) : outcome bytes :=
+  let pos := (7 * i)%nat in
+  let k := (pos / 8)%nat in
+  let o := N.of_nat (pos mod 8) in
+  let c := N.land char 127 in
+  b <- idx buf k ;;
+  let buf := upd buf k (N.lor b ((N.shiftl c o) mod 256)) in
+  if 1 <? o then
+    b1 <- idx buf (k + 1) ;;
+    Ok (upd buf (k + 1) (N.lor b1 (N.shiftr c (8 - o))))
+  else Ok buf.
+
+Fixpoint name_loop (chars : bytes) (i : nat) (buf : bytes) : outcome bytes :=
   match chars with
   | [] => Ok buf
-  | char :: t =>
-      match i with
-      | O => name_loop t 1%nat (buf ++ [char]) ix
-      | S j =>
-          b <- idx buf j ;;
-          let buf := upd buf j ((N.land b (GetBitMask ((ix + 1) mod 256) 0) +
-                                 (N.shiftl char ix) mod 256) mod 256) in
-          let buf := buf ++ [N.shiftr char (8 - ix)] in
-          let ix := (ix + 255) mod 256 in
-          let ix := if ix =? 255 then 7 else ix in
-          name_loop t (S i) buf ix
-      end
+  | char :: t => buf' <- name_step char i buf ;; name_loop t (S i) buf'
   end.
 
 (* result: (Len, Buffer) of the FullNameForNetwork / ShortNameForNetwork *)
 Definition NetworkNameToNas (name : bytes) : outcome (N * bytes) :=
   let numOfSpareBits := (8 - Z.rem (7 * Z.of_nat (length name)) 8)%Z in
-  buf <- name_loop name 0%nat [] 7 ;;
+  (* buf := make([]uint8, (7*len(asciiArray)+7)/8) *)
+  let buf0 := repeat 0 (Z.to_nat (Z.quot (7 * Z.of_nat (length name) + 7) 8)) in
+  buf <- name_loop name 0%nat buf0 ;;
   (* SetLen(uint8(1 + len(buf))): Buffer = make([]uint8, Len) *)
   let len := u8 (1 + Z.of_nat (length buf)) in
   let buffer := repeat 0 (N.to_nat len) in
